@@ -38,7 +38,10 @@ def runs_of_maxima(v):
 def snap(frequency, bound, default):
     if bound is None:
         return default
-    return int(np.argmin(np.abs(np.asarray(frequency) - bound)))
+    f = np.asarray(frequency)
+    if np.isinf(bound):                 # every sample is infinitely far away: the nearest one is the extreme one on that side
+        return int(np.argmax(f)) if bound > 0 else int(np.argmin(f))
+    return int(np.argmin(np.abs(f - bound)))
 
 
 def classify(frequency, v, search_range):
